@@ -618,6 +618,7 @@ static int op_cfg(int argc, char **argv, FILE *out) {
         return 0;
     h_threads_reset();
     h_rq_reset();
+    h_live_set(0);
     h_rewrite_reset();
     for (i = 0; i < nwclients; i++)
         if (wr_thread[i] && wclients[i] && wclients[i]->sock >= 0 && wclients[i]->conf->type != RAD_UDP && wclients[i]->conf->type != RAD_DTLS) {
@@ -668,6 +669,16 @@ static int op_cfg(int argc, char **argv, FILE *out) {
     }
     world_ready = 1;
     fputs("ok", out);
+    for (e = list_first(clconfs); e; e = list_next(e)) {
+        struct clsrvconf *c = e->data;
+        if (c->type == RAD_TLS || c->type == RAD_DTLS)
+            fprintf(out, " tlsctx:%s:%d", c->name, c->tlsconf ? 1 : 0);
+    }
+    for (e = list_first(srvconfs); e; e = list_next(e)) {
+        struct clsrvconf *c = e->data;
+        if (c->type == RAD_TLS || c->type == RAD_DTLS)
+            fprintf(out, " tlsctx:%s:%d", c->name, c->tlsconf ? 1 : 0);
+    }
     put_tail(out);
     return 1;
 }
@@ -998,13 +1009,29 @@ static int op_dynfind(int argc, char **argv, FILE *out) {
    prints a server block (here: whatever the op says). The real path adddynamicrealmserver -> addserver -> clientwr ->
    dynamicconfigexternal -> confserver_cb -> mergesrvconf runs; printed: the secret the discovered server ends up with, the length the
    code will use for it, and a request serialised under it (so that a wrong length shows in the bytes, or in the sanitizer). */
+static int dynconf_noconnect(struct server *srv, int timeout, int reconnect) {
+    (void)srv;
+    (void)timeout;
+    (void)reconnect;
+    return 0;
+}
 static int op_dynconf(int argc, char **argv, FILE *out) {
+    static struct protodefs pd_tcp, pd_dtls;
     char *tsec, *id, *outp;
     struct list *rl, *saved = realms;
     struct realm *realm, *sub;
     struct clsrvconf *conf;
-    if (argc != 4) /* the fourth argument (the secret the printed block sets, or ".") is for the model's side only */
+    const struct protodefs *saved_tcp = protodefs[RAD_TCP], *saved_dtls = protodefs[RAD_DTLS];
+    int ttype = RAD_TCP, trc = 0, tri = 0, have_t = 0;
+    /* the fourth argument (the secret the printed block sets, or ".") is for the model's side only; so is a sixth (what the block
+       says about type and retries); the fifth, T<type>,<RetryCount>,<RetryInterval>, describes the template block (255 = not set) */
+    if (argc != 4 && argc != 6)
         return 0;
+    if (argc == 6) {
+        if (sscanf(argv[4], "T%d,%d,%d", &ttype, &trc, &tri) != 3 || (ttype != RAD_TCP && ttype != RAD_DTLS))
+            return 0;
+        have_t = 1;
+    }
     tsec = hxstr(argv[0]);
     id = hxstr(argv[1]);
     outp = hxstr(argv[2]);
@@ -1012,8 +1039,14 @@ static int op_dynconf(int argc, char **argv, FILE *out) {
         return 0;
     h_threads_reset();
     h_execlog_reset();
-    if (!protodefs[RAD_TCP])
-        protodefs[RAD_TCP] = tcpinit(RAD_TCP);
+    /* the real protocol tables, except that nothing is ever connected to */
+    pd_tcp = *tcpinit(RAD_TCP);
+    pd_dtls = *dtlsinit(RAD_DTLS);
+    pd_tcp.connecter = pd_dtls.connecter = dynconf_noconnect;
+    pd_tcp.clientconnreader = pd_dtls.clientconnreader = NULL;
+    pd_dtls.addserverextra = NULL;
+    protodefs[RAD_TCP] = &pd_tcp;
+    protodefs[RAD_DTLS] = &pd_dtls;
     rl = list_create();
     {
         char star[] = "*";
@@ -1023,6 +1056,17 @@ static int op_dynconf(int argc, char **argv, FILE *out) {
     free(conf->secret);
     conf->secret = (uint8_t *)tsec;
     conf->secret_len = unhex((char *)conf->secret, 1);
+    if (have_t) {
+        conf->type = ttype;
+        conf->pdef = protodefs[ttype];
+        conf->retrycount = trc;
+        conf->retryinterval = tri;
+        if (ttype == RAD_DTLS) {
+            conf->pskkey = (uint8_t *)stringcopy("0123456789abcdef", 0);
+            conf->pskkeylen = 16;
+            conf->pskid = stringcopy("id_dyn", 0);
+        }
+    }
     realm->srvconfs = list_create();
     list_push(realm->srvconfs, conf);
     realms = rl;
@@ -1049,11 +1093,100 @@ static int op_dynconf(int argc, char **argv, FILE *out) {
             fputs("-", out);
         free(buf);
         radmsg_free(m);
+        if (have_t) /* what the retry machinery of the discovered server will work with */
+            fprintf(out, " type=%d rc=%d ri=%d", c->type, c->retrycount, c->retryinterval);
     }
     realms = saved;
+    protodefs[RAD_TCP] = saved_tcp;
+    protodefs[RAD_DTLS] = saved_dtls;
     free(h_transcript_take());
     free(id);
     free(outp);
+    return 1;
+}
+
+/* dyndns <hex DynamicLookupCommand (naptr:... | srv:...)> <hex id> {<retlen> <hex answer>}...: a realm whose server is discovered
+   through the DNS. The real path adddynamicrealmserver -> addserver -> clientwr -> dynamicconfig -> dynamicconfignaptr /
+   dynamicconfigsrv -> mergesrvconf -> compileserverconfig runs on the scripted answers (first question gets the first answer, ...).
+   Printed: the name and the host:port list the discovered server ends up with. Connecting is not attempted (the connecter says no). */
+extern void h_dns_script_reset(void);
+extern const char *h_dns_qlog_get(void);
+extern int h_dns_script_add(const uint8_t *b, int len, int retlen);
+static int dyn_noconnect(struct server *srv, int timeout, int reconnect) {
+    (void)srv;
+    (void)timeout;
+    (void)reconnect;
+    return 0;
+}
+static int op_dyndns(int argc, char **argv, FILE *out) {
+    static struct protodefs dynpd;
+    char *cmd, *id;
+    struct list *rl, *saved = realms;
+    struct realm *realm, *sub;
+    struct clsrvconf *conf;
+    const struct protodefs *savedpd = protodefs[RAD_TCP];
+    int i;
+    if (argc < 2 || (argc - 2) % 2 || (argc - 2) / 2 > 4)
+        return 0;
+    cmd = hxstr(argv[0]);
+    id = hxstr(argv[1]);
+    if (!cmd || !id)
+        return 0;
+    h_threads_reset();
+    h_execlog_reset();
+    h_dns_set_answer((const uint8_t *)"", 0, -1);
+    for (i = 2; i + 1 < argc; i += 2) {
+        int l;
+        uint8_t *b = hx(argv[i + 1], &l);
+        if (l < 0)
+            return 0;
+        h_dns_script_add(b, l, atoi(argv[i]));
+        free(b);
+    }
+    if (argc == 2)
+        h_dns_script_add((const uint8_t *)"", 0, -1);
+    dynpd = *tcpinit(RAD_TCP);
+    dynpd.connecter = dyn_noconnect;
+    dynpd.clientconnreader = NULL;
+    protodefs[RAD_TCP] = &dynpd;
+    rl = list_create();
+    {
+        char star[] = "*";
+        realm = addrealm(rl, star, NULL, NULL, NULL, 0, 0);
+    }
+    conf = dynconf("dyn", cmd);
+    realm->srvconfs = list_create();
+    list_push(realm->srvconfs, conf);
+    realms = rl;
+    free(h_transcript_take());
+    sub = adddynamicrealmserver(realm, id);
+    if (!sub || !sub->srvconfs || !list_first(sub->srvconfs))
+        fputs("none", out);
+    else {
+        struct clsrvconf *c = list_first(sub->srvconfs)->data;
+        char **h;
+        fputs("name:", out);
+        puthex(out, (uint8_t *)c->name, c->name ? strlen(c->name) : 0);
+        fputs(" hosts:", out);
+        if (!c->hostsrc || !c->hostsrc[0])
+            fputs("-", out);
+        else
+            for (h = c->hostsrc; *h; h++) {
+                if (h != c->hostsrc)
+                    fputc(',', out);
+                puthex(out, (uint8_t *)*h, strlen(*h));
+            }
+    }
+    fputs(h_dns_qlog_get(), out);
+    {
+        char *tr = h_transcript_take();
+        fprintf(out, " ##%s", tr);
+        free(tr);
+    }
+    h_dns_set_answer((const uint8_t *)"", 0, -1);
+    realms = saved;
+    protodefs[RAD_TCP] = savedpd;
+    free(id);
     return 1;
 }
 
@@ -1140,6 +1273,29 @@ static int op_reset(int argc, char **argv, FILE *out) {
     pthread_cond_signal(&s->newrq_cond);
     pthread_mutex_unlock(&s->newrq_mutex);
     fputs("ok", out);
+    put_tail(out);
+    return 1;
+}
+
+/* rmserver <srvname>: the server's reader thread is gone (connection lost for good / idle timeout of a discovered server);
+   the REAL clientwr, scheduled next, finds that out, leaves its loop and runs its exit path: freeserver. The conf is left
+   without server object, as after the exit of a discovered server's writer. */
+static int op_rmserver(int argc, char **argv, FILE *out) {
+    struct server *s;
+    struct clsrvconf *c;
+    void *t;
+    int st;
+    if (argc != 1 || !world_ready || !(s = srv_by_name(argv[0])) || !(t = h_thread_find(s)))
+        return 0;
+    c = s->conf;
+    s->clientrdgone = 1;
+    st = h_thread_step(t);
+    if (st != 3) { /* W_DONE */
+        fprintf(out, "writer-did-not-exit:%d", st);
+        return 1;
+    }
+    c->servers = NULL;
+    fputs("gone", out);
     put_tail(out);
     return 1;
 }
@@ -1398,10 +1554,14 @@ static int op_fault(int argc, char **argv, FILE *out) {
         return 0;
     n = atol(argv[0]);
     fprintf(out, "fault ");
+    if (!h_live_on())
+        h_live_set(1); /* from the first fault op of a world on, what the program allocates is accounted for */
     h_alloc_arm(n >= 0 ? n : 1L << 40, 0);
     r = h_rsp_op(argv[1], argc - 2, argv + 2, out);
     fprintf(out, " allocs:%ld", h_alloc_count());
     h_alloc_arm(-1, 0);
+    if (r && !strcmp(argv[1], "idle"))
+        h_live_print(out);
     if (!r)
         fputs("bad-op", out);
     return 1;
@@ -1422,8 +1582,14 @@ int h_rsp_op(const char *op, int argc, char **argv, FILE *out) {
     if (!strcmp(op, "dynconf")) return op_dynconf(argc, argv, out);
     if (!strcmp(op, "tcpconn")) return op_tcpconn(argc, argv, out);
     if (!strcmp(op, "idle")) return op_idle(argc, argv, out);
+    if (!strcmp(op, "faultcmp") || !strcmp(op, "faultleak")) { /* observations of two runs, compared by the monitor: nothing to execute */
+        fputs(op, out);
+        return argc == 2;
+    }
     if (!strcmp(op, "rxeval")) return op_rxeval(argc, argv, out);
     if (!strcmp(op, "reset")) return op_reset(argc, argv, out);
+    if (!strcmp(op, "dyndns")) return op_dyndns(argc, argv, out);
+    if (!strcmp(op, "rmserver")) return op_rmserver(argc, argv, out);
     if (!strcmp(op, "srvstate")) return op_srvstate(argc, argv, out);
     if (!strcmp(op, "pop")) return op_pop(argc, argv, out);
     if (!strcmp(op, "rmclient")) return op_rmclient(argc, argv, out);
